@@ -89,7 +89,7 @@ int handle_destroy(int handle)
   REQ("C05/handle_destroy.own_open_descriptor", handle == -1 || g.in_child || (IS_OPEN(handle) && IS_LIB(handle)))
   ASSIGNS(G_FD, G_ERR)
   ENS("C14/handle_destroy.error_ghost_sane", G_ERR_SANE)
-  ENS("C05/handle_destroy.returns_invalid", RV == -1)
+  ENS("C05+INV/handle_destroy.returns_invalid", RV == -1)
   ENS("C05/handle_destroy.invalid_is_noop", IMPLIES(handle == -1, g.e.os_calls == OLD(g.e.os_calls) && FD_LEDGER_UNCHANGED))
   ENS("C05/handle_destroy.releases_exactly_that_descriptor", g.fds.open == (OLD(g.fds.open) & ~MASK_OF(handle)) && g.fds.lib == (OLD(g.fds.lib) & ~MASK_OF(handle)))
   ENS("C05/handle_destroy.others_keep_flags", FD_FRAME_EXCEPT(MASK_OF(handle)))
@@ -113,7 +113,7 @@ int pipe_destroy(int pipe)
   REQ("C05/pipe_destroy.own_open_descriptor", pipe == -1 || g.in_child || (IS_OPEN(pipe) && IS_LIB(pipe)))
   ASSIGNS(G_FD, G_ERR)
   ENS("C14/pipe_destroy.error_ghost_sane", G_ERR_SANE)
-  ENS("C05/pipe_destroy.returns_invalid", RV == -1)
+  ENS("C05+INV/pipe_destroy.returns_invalid", RV == -1)
   ENS("C05/pipe_destroy.invalid_is_noop", IMPLIES(pipe == -1, g.e.os_calls == OLD(g.e.os_calls) && FD_LEDGER_UNCHANGED))
   ENS("C05/pipe_destroy.releases_exactly_that_descriptor", g.fds.open == (OLD(g.fds.open) & ~MASK_OF(pipe)) && g.fds.lib == (OLD(g.fds.lib) & ~MASK_OF(pipe)))
   ENS("C05/pipe_destroy.others_keep_flags", FD_FRAME_EXCEPT(MASK_OF(pipe)))
@@ -128,11 +128,11 @@ int pipe_init(int *read, int *write)
   REQ_(read != NULL && write != NULL && read != write)
   ASSIGNS(*read, *write, G_FD, G_ERR)
   ENS("C14/pipe_init.error_ghost_sane", G_ERR_SANE)
-  ENS("C05/pipe_init.success_two_fresh_library_descriptors", IMPLIES(RV == 0, PIPE_PAIR_FRESH(*read, *write)))
+  ENS("C05+INV/pipe_init.success_two_fresh_library_descriptors", IMPLIES(RV == 0, PIPE_PAIR_FRESH(*read, *write)))
   ENS("C11/pipe_init.both_ends_close_on_exec", IMPLIES(RV == 0, (g.fds.cloexec & (MASK_OF(*read) | MASK_OF(*write))) == (MASK_OF(*read) | MASK_OF(*write))))
   ENS("C17/pipe_init.both_ends_blocking", IMPLIES(RV == 0, (g.fds.nonblock & (MASK_OF(*read) | MASK_OF(*write))) == 0))
   ENS("C10/pipe_init.ends_of_one_pipe", IMPLIES(RV == 0, g.fds.obj[*read] >= OBJ_PIPE_BASE && (g.fds.obj[*read] & 1) == 0 && g.fds.obj[*write] == g.fds.obj[*read] + 1 && (g.fds.rd & BIT(*read)) != 0 && (g.fds.wr & BIT(*write)) != 0))
-  ENS("C05/pipe_init.failure_leaves_no_descriptor", IMPLIES(RV != 0, FD_LEDGER_UNCHANGED && *read == OLD(*read) && *write == OLD(*write)))
+  ENS("C05+INV/pipe_init.failure_leaves_no_descriptor", IMPLIES(RV != 0, FD_LEDGER_UNCHANGED && *read == OLD(*read) && *write == OLD(*write)))
   ENS("C05/pipe_init.other_descriptors_untouched", FD_FRAME_EXCEPT(RV == 0 ? (MASK_OF(*read) | MASK_OF(*write)) : 0u))
   ENS("C04/pipe_init.zero_or_negative_errno", RV <= 0 && IMPLIES(RV < 0, g.e.faults > OLD(g.e.faults)) && IMPLIES(RV == 0, g.e.faults == OLD(g.e.faults)))
   ENS("C04/pipe_init.first_failure_reported", IMPLIES(RV < 0 && OLD(g.e.faults) == 0, RV == -g.e.first_errno))
@@ -203,7 +203,7 @@ int redirect_init(pipe_type *parent, handle_type *child, REPROC_STREAM stream, r
   REQ("C10/redirect_init.operand_present", IMPLIES(RD_T(*redirect) == RT_PATH, redirect->path != NULL) && IMPLIES(RD_T(*redirect) == RT_FILE, redirect->file != NULL))
   ASSIGNS(*parent, *child, redirect->type, G_FD, G_ERR)
   ENS("C14/redirect_init.error_ghost_sane", G_ERR_SANE)
-  ENS("C10/redirect_init.pipe_parent_holds_other_end", IMPLIES(RV == 0 && RTYPE == RT_PIPE, FD_NEW(*parent) && FD_NEW(*child) && *parent != *child && ONLY_NEW2(*parent, *child) && g.fds.obj[*child] >= OBJ_PIPE_BASE && (stream == REPROC_STREAM_IN ? ((g.fds.obj[*child] & 1) == 0 && g.fds.obj[*parent] == g.fds.obj[*child] + 1) : ((g.fds.obj[*parent] & 1) == 0 && g.fds.obj[*child] == g.fds.obj[*parent] + 1)) && CHILD_DIR_OK(stream, *child)))
+  ENS("C10+INV/redirect_init.pipe_parent_holds_other_end", IMPLIES(RV == 0 && RTYPE == RT_PIPE, FD_NEW(*parent) && FD_NEW(*child) && *parent != *child && ONLY_NEW2(*parent, *child) && g.fds.obj[*child] >= OBJ_PIPE_BASE && (stream == REPROC_STREAM_IN ? ((g.fds.obj[*child] & 1) == 0 && g.fds.obj[*parent] == g.fds.obj[*child] + 1) : ((g.fds.obj[*parent] & 1) == 0 && g.fds.obj[*child] == g.fds.obj[*parent] + 1)) && CHILD_DIR_OK(stream, *child)))
   ENS("C17/redirect_init.pipe_parent_end_mode_child_end_blocking", IMPLIES(RV == 0 && RTYPE == RT_PIPE, ((g.fds.nonblock & MASK_OF(*parent)) != 0) == nonblocking && (g.fds.nonblock & MASK_OF(*child)) == 0))
   ENS("C11/redirect_init.created_descriptors_close_on_exec", IMPLIES(RV == 0 && (RTYPE == RT_PIPE || OPENS_FILE), (g.fds.cloexec & MASK_OF(*child)) != 0 && IMPLIES(RTYPE == RT_PIPE, (g.fds.cloexec & MASK_OF(*parent)) != 0)))
   ENS("C10/redirect_init.parent_stream", IMPLIES(RV == 0 && RTYPE == RT_PARENT && !PARENT_FALLS_BACK, *child == gc.cfg_std_fileno[stream] && FD_LEDGER_UNCHANGED))
@@ -214,8 +214,8 @@ int redirect_init(pipe_type *parent, handle_type *child, REPROC_STREAM stream, r
   ENS("C10/redirect_init.file_is_users", IMPLIES(RV == 0 && RTYPE == RT_FILE, gc.cfg_file_fd >= 0 && *child == gc.cfg_file_fd && FD_LEDGER_UNCHANGED))
   ENS("C10/redirect_init.stdout_shares_childs_stdout", IMPLIES(RV == 0 && RTYPE == RT_STDOUT, *child == out && FD_LEDGER_UNCHANGED))
   ENS("C05/redirect_init.null_device_fallback_is_recorded_for_release", RD_T(*redirect) == ((RV == 0 && RTYPE == RT_PARENT && PARENT_FALLS_BACK) ? RT_DISCARD : RTYPE))
-  ENS("C10/redirect_init.parent_end_only_for_pipes", IMPLIES(RV == 0 && RTYPE != RT_PIPE, *parent == -1))
-  ENS("C05/redirect_init.failure_leaves_no_descriptor", IMPLIES(RV != 0, FD_LEDGER_UNCHANGED && *parent == OLD(*parent) && *child == OLD(*child)))
+  ENS("C10+INV/redirect_init.parent_end_only_for_pipes", IMPLIES(RV == 0 && RTYPE != RT_PIPE, *parent == -1))
+  ENS("C05+INV/redirect_init.failure_leaves_no_descriptor", IMPLIES(RV != 0, FD_LEDGER_UNCHANGED && *parent == OLD(*parent) && *child == OLD(*child)))
   ENS("C05/redirect_init.other_descriptors_untouched", FD_FRAME_EXCEPT(RV == 0 ? ((RTYPE == RT_PIPE ? MASK_OF(*parent) : 0u) | ((RTYPE == RT_PIPE || OPENS_FILE) ? MASK_OF(*child) : 0u)) : 0u))
   ENS("C04/redirect_init.success_has_no_failed_call", IMPLIES(RV == 0, g.e.faults == OLD(g.e.faults)))
   ENS("C04/redirect_init.zero_or_negative_error", RV <= 0 && IMPLIES(RV < 0 && OLD(g.e.faults) == 0 && g.e.faults > 0, RV == -g.e.first_errno) && IMPLIES(RV < 0 && g.e.faults == OLD(g.e.faults), RV == -EINVAL && (RTYPE == RT_DEFAULT || RTYPE > 7u)))
@@ -230,7 +230,7 @@ handle_type redirect_destroy(handle_type child, REPROC_REDIRECT type)
   REQ("C05/redirect_destroy.closes_only_library_descriptors", IMPLIES(child != -1 && DESTROY_CLOSES(type), g.in_child || (IS_OPEN(child) && IS_LIB(child))))
   ASSIGNS(G_FD, G_ERR)
   ENS("C14/redirect_destroy.error_ghost_sane", G_ERR_SANE)
-  ENS("C05/redirect_destroy.returns_invalid", RV == -1)
+  ENS("C05+INV/redirect_destroy.returns_invalid", RV == -1)
   ENS("C05/redirect_destroy.invalid_is_noop", IMPLIES(child == -1, g.e.os_calls == OLD(g.e.os_calls) && g.e.faults == OLD(g.e.faults) && g.e.err == OLD(g.e.err) && FD_LEDGER_UNCHANGED))
   ENS("C05/redirect_destroy.closes_what_the_library_opened", IMPLIES(DESTROY_CLOSES(type), g.fds.open == (OLD(g.fds.open) & ~MASK_OF(child)) && g.fds.lib == (OLD(g.fds.lib) & ~MASK_OF(child))))
   ENS("C05/redirect_destroy.never_closes_user_or_parent_streams", IMPLIES(!DESTROY_CLOSES(type), FD_LEDGER_UNCHANGED && g.e.os_calls == OLD(g.e.os_calls)))
@@ -245,9 +245,9 @@ int process_wait(pid_t process)
   ASSIGNS(G_ERR, g.wait_calls, g.child_reaped, g.child_live, g.reaps, g.may_block, g.eintr_run, g.wait_eintr)
   ENS("C14/process_wait.error_ghost_sane", G_ERR_SANE)
   ENS("C01/process_wait.one_blocking_waitpid", g.wait_calls == OLD(g.wait_calls) + 1)
-  ENS("C01/process_wait.status_means_reaped", IMPLIES(RV >= 0, g.child_reaped && !g.child_live && g.reaps == OLD(g.reaps) + 1))
+  ENS("C01+INV/process_wait.status_means_reaped", IMPLIES(RV >= 0, g.child_reaped && !g.child_live && g.reaps == OLD(g.reaps) + 1))
   ENS("C01/process_wait.status_is_exact", IMPLIES(RV >= 0, RV == WST_DECODE(g.child_wstatus)))
-  ENS("C01/process_wait.error_means_not_reaped", IMPLIES(RV < 0, !g.child_reaped && g.child_live && g.reaps == OLD(g.reaps) && RV == -g.e.err))
+  ENS("C01+INV/process_wait.error_means_not_reaped", IMPLIES(RV < 0, !g.child_reaped && g.child_live && g.reaps == OLD(g.reaps) && RV == -g.e.err))
   ENS("C06/process_wait.no_signal", g.nsig == OLD(g.nsig) && g.kill_calls == OLD(g.kill_calls))
   ENS("C05/process_wait.ledger_unchanged", FD_LEDGER_UNCHANGED && g.child_pid == OLD(g.child_pid) && g.child_wstatus == OLD(g.child_wstatus))
   ;
@@ -299,8 +299,8 @@ int process_start(pid_t *process, const char *const *argv, struct process_option
   ENS("C11/process_start.fork_mode_child_descriptors", IMPLIES(g.in_child, (g.fds.open & PS_HANDLES_MASK & ~7u) == (OLD(g.fds.open) & PS_HANDLES_MASK & ~7u)))
   ENS("C04/process_start.success_has_no_failed_call", IMPLIES(RV >= 0, g.e.faults == OLD(g.e.faults)))
   ENS("C04/process_start.parent_gets_one_or_error", IMPLIES(PS_PARENT, RV == 1 || RV < 0))
-  ENS("C04+C06/process_start.success_is_live_child_that_executed", IMPLIES(PS_PARENT && RV == 1, *process == g.child_pid && *process > 0 && g.child_live && !g.child_reaped && g.reaps == OLD(g.reaps) && g.child_fate == FATE_EXECED))
-  ENS("C04+C05+C06/process_start.failure_leaves_no_child_and_no_pid", IMPLIES(PS_PARENT && RV < 0, *process == -1 && !g.child_live && (g.child_pid == 0 || g.child_reaped)))
+  ENS("C04+C06+INV/process_start.success_is_live_child_that_executed", IMPLIES(PS_PARENT && RV == 1, *process == g.child_pid && *process > 0 && g.child_live && !g.child_reaped && g.reaps == OLD(g.reaps) && g.child_fate == FATE_EXECED))
+  ENS("C04+C05+C06+INV/process_start.failure_leaves_no_child_and_no_pid", IMPLIES(PS_PARENT && RV < 0, *process == -1 && !g.child_live && (g.child_pid == 0 || g.child_reaped)))
   ENS("C04/process_start.failure_is_real_cause", IMPLIES(PS_PARENT && RV < 0 && OLD(g.e.faults) == 0, (g.e.faults > 0 && RV == -g.e.first_errno) || ((g.child_fate == FATE_FAILED_EARLY || g.child_fate == FATE_FAILED_LATE) && RV == -g.child_fate_errno)))
   ENS("C12/process_start.caller_state_untouched", IMPLIES(PS_PARENT, g.sigmask == OLD(g.sigmask) && g.disp_default == OLD(g.disp_default) && g.cwd_id == OLD(g.cwd_id) && environ == OLD(environ)))
   ENS("C05/process_start.parent_descriptors_as_before", IMPLIES(PS_PARENT, g.fds.open == OLD(g.fds.open) && g.fds.lib == OLD(g.fds.lib) && g.fds.cloexec == OLD(g.fds.cloexec) && g.fds.nonblock == OLD(g.fds.nonblock)))
